@@ -357,7 +357,9 @@ def run(rep, tier, seed, keep=False):
                     c = c.parent
                 s = 'x' * max(sz - 49, 1)
                 lst = list(range(max((sz - 56) // 8, 1)))
-                for text in chains:
+                big = "'" + 'y' * (q + 64) + "'"       # a literal that is itself larger than the quota
+                lit_chains = ['len(%s)' % big, 'isString(%s)' % big, "'b' in %s" % big, '%s.len()' % big, '[%s].len()' % big, '{a => %s}.len()' % big] if sz == q // 4 else []
+                for text in chains + lit_chains:
                     del sizes[:]
                     c2 = cx.create_child_context()
                     c2['s'] = s
@@ -382,7 +384,7 @@ def run(rep, tier, seed, keep=False):
                                 out += deep(x)
                         return out
                     add({'act': 'quota', 'q': q, 'argsizes': [z for z in sizes if z > q][:5] or [0], 'retsize': max(deep(v) or [0]) if o == 'value' else 0,
-                         'outcome': o}, '%s with memoryQuota=%d and operands of about %d bytes: outcome %s' % (text, q, sz, o))
+                         'outcome': o}, '%s with memoryQuota=%d and operands of about %d bytes: outcome %s' % (text if len(text) < 200 else text[:60] + '...' + text[-30:], q, sz, o))
         # repetition refuses before allocating
         for q in (1000, 100000):
             engine = yaql.YaqlFactory().create(options={'yaql.memoryQuota': q})
